@@ -3,6 +3,8 @@ import Dawgs.Model.C01S2
 import Dawgs.Model.C01Chain
 import Dawgs.Model.C01Count
 import Dawgs.Model.C01Limit
+import Dawgs.Model.C01Distinct
+import Dawgs.Model.C01Cross
 /-
 C02 — models of the optimiser's transformations.
 
@@ -297,6 +299,34 @@ def trVariant (flipOf : C01.S2.Query → Bool) (flipCh : C01.Ch.Query → Bool) 
 LIMIT into the hop frame (limit pushdown, `translate.limitPushdownTailSource`); the unoptimised one does not -/
 def trVariantL (flipOf : C01.S2.Query → Bool) (flipCh : C01.Ch.Query → Bool) (flipN : C01.S2n.Query → Bool) (optimised : Bool) (km : KindMap)
     (q : Cy.Query) : Option (Sql.Stmt × List (String × Val)) := C01.tr6F flipOf flipCh flipN optimised optimised optimised km q
+
+/-- the stages of C01 whose statement does not depend on any optimiser switch — S1o (ORDER BY on a property), S1d (RETURN DISTINCT), S3a (one WITH
+with plain items), S3b (a hop from the carried node after the WITH) —, read first (in C01's order of precedence: `tr9F` before `tr8F` before `tr7F`), else the translator `T` -/
+def withStages (T : KindMap → Cy.Query → Option (Sql.Stmt × List (String × Val))) (km : KindMap) (q : Cy.Query) : Option (Sql.Stmt × List (String × Val)) :=
+  match C01.ofCyDistinct q with
+  | some s => (s.tr km).map (fun st => (st, []))
+  | none =>
+    match C01.ofCyOrder q with
+    | some s => (s.tr km).map (fun st => (st, []))
+    | none =>
+      match C01.ofCyWith q with
+      | some s => (s.tr km).map (fun st => (st, []))
+      | none =>
+        match C01.ofCyWithHop q with
+        | some s => (s.tr km).map (fun st => (st, []))
+        | none => T km q
+
+/-- the model pair over the stages S1, S1c, S1o, S1d, S2b, S2c, S2n, S3a, S3b -/
+def trVariantS (flipOf : C01.S2.Query → Bool) (flipCh : C01.Ch.Query → Bool) (flipN : C01.S2n.Query → Bool) (optimised : Bool) (km : KindMap)
+    (q : Cy.Query) : Option (Sql.Stmt × List (String × Val)) := withStages (trVariant flipOf flipCh flipN optimised) km q
+
+/-- stage S2x (a hop whose WHERE compares a property of a with a property of b) read first — as `C01.tr10F` does —, with the join order a
+parameter and the frame pruned exactly when the optimiser is on; else the translator `T` -/
+def withCross (flipX : C01.S2x.Query → Bool) (optimised : Bool) (T : KindMap → Cy.Query → Option (Sql.Stmt × List (String × Val))) (km : KindMap)
+    (q : Cy.Query) : Option (Sql.Stmt × List (String × Val)) :=
+  match C01.ofCyCross q with
+  | some s => (s.stmtWith km (flipX s) optimised).map (fun st => (st, []))
+  | none => T km q
 
 /-- what `limitPushdownTailSource` sees on the statements of the proved fragment (assigned by hand from the statement forms of
 `C01.S2.Query.stmtWith` / `C01.S2n.Query.trWith`: one reading clause, tail `select items from s0`, source `s0` a CTE with a one-part name) -/
